@@ -101,6 +101,8 @@ def gen(rng, fam, tier, D=None, kind=None):
                 y = mean[..., None, :] + rng.normal(size=(*lead, N, D)) * np.sqrt(ev.max())
         elif fam == 'gauss_diag':
             cov = 10.0 ** rng.uniform(-4, 4, size=(*lead, D))
+            if rng.random() < 0.2:
+                cov = rng.integers(1, 10, size=(*lead, D)).astype(float)
             y = mean[..., None, :] + rng.normal(size=(*lead, N, D)) * np.sqrt(cov)[..., None, :] * float(rng.choice([0.3, 1.0, 3.0]))
         else:
             cov = np.asarray(10.0 ** rng.uniform(-4, 4, size=lead), dtype=float)
@@ -120,7 +122,10 @@ def gen(rng, fam, tier, D=None, kind=None):
         y = rng.normal(size=(*lead, N, D)) * 10.0 ** rng.integers(-3, 4)
         if rng.random() < 0.3:     # points near the mean direction
             y = mean[..., None, :] + 0.05 * rng.normal(size=(*lead, N, D))
-        return {'fam': fam, 'mean': mean, 'concentration': _kappa(rng, lead), 'y': y}
+        kap = _kappa(rng, lead)
+        if rng.random() < 0.2:
+            kap = np.asarray(rng.integers(1, 60, size=lead), dtype=float)          # integer valued
+        return {'fam': fam, 'mean': mean, 'concentration': kap, 'y': y}
     D = int(rng.integers(2, 7)) if D is None else D
     if fam == 'watson':
         mode = _unit(rng, (*lead, D), True)
@@ -128,7 +133,10 @@ def gen(rng, fam, tier, D=None, kind=None):
         if rng.random() < 0.3:
             y = mode[..., None, :] + 0.1 * (rng.normal(size=(*lead, N, D)) + 1j * rng.normal(size=(*lead, N, D)))
             y = y / np.linalg.norm(y, axis=-1, keepdims=True)
-        return {'fam': fam, 'mode': mode, 'concentration': _kappa(rng, lead), 'y': y}
+        kap = _kappa(rng, lead)
+        if rng.random() < 0.2:
+            kap = np.asarray(rng.integers(1, 60, size=lead), dtype=float)
+        return {'fam': fam, 'mode': mode, 'concentration': kap, 'y': y}
     a = rng.normal(size=(*lead, D, D)) + 1j * rng.normal(size=(*lead, D, D))
     _, E = np.linalg.eigh(a + np.conj(np.swapaxes(a, -1, -2)))
     if fam == 'bingham':
@@ -147,6 +155,8 @@ def gen(rng, fam, tier, D=None, kind=None):
         if rng.random() < 0.4:
             lam = lam * 10.0 ** rng.uniform(-2, 2, size=lead + (1,))
         lam = np.sort(lam, axis=-1)
+        if rng.random() < 0.25:
+            lam = np.sort(rng.integers(1, 10, size=(*lead, D)).astype(float), axis=-1)        # integer valued eigenvalues
         y = (rng.normal(size=(*lead, N, D)) + 1j * rng.normal(size=(*lead, N, D))) * 10.0 ** rng.integers(-3, 4)
         return {'fam': fam, 'E': E, 'lam': lam, 'y': y}
     raise ValueError(fam)
@@ -466,6 +476,19 @@ def evaluate(rp, rng=None):
             return '%s.pdf raised %s: %s' % (fam, type(e).__name__, str(e)[:200]), '%s:pdf:raises' % fam, coq, None
         if pdf.shape != out.shape or np.any(np.abs(pdf - np.exp(out)) > 1e-12 * np.exp(out)):
             return '%s.pdf differs from exp(log_pdf)' % fam, '%s:pdf' % fam, coq, None
+    # the density is a function of the parameter VALUES: other memory layouts and, where every entry is an integer,
+    # integer typed parameter arrays (e.g. eigenvalues [1, 2, 4] typed by hand or loaded from JSON) give the same values
+    names = [k for k in PARAMS[fam]]
+
+    def again(*params):
+        o2 = build(dict(rp, **dict(zip(names, params))))
+        return np.asarray(o2.log_pdf(np.array(arrays['y'])))
+    cv = core.container_variants(again, [arrays[k] for k in names], out,
+                                 lambda r_, e: np.shape(r_) == np.shape(e) and np.all(np.abs(r_ - e) <= 1e-9 * (1 + np.abs(e))),
+                                 which=('layout',), recast_allow=('int',),
+                                 recast_args=[i for i, k in enumerate(names) if k in ('lam', 'concentration', 'covariance')])
+    if cv:
+        return '%s.log_pdf: %s' % (fam, cv), '%s:container' % fam, coq, None
     if lead:
         for ix in (idxs[:3] if len(idxs) > 3 else idxs):
             one = np.asarray(build(rp, ix).log_pdf(np.array(arrays['y'][ix])))
